@@ -39,7 +39,18 @@ def swap_keep(op, impl, model):
     return bool(steps) and any(re.fullmatch(r's\d+', st) for st in steps)
 
 
+def hello_spans_records(op, impl, model):
+    """the client re-framed its ClientHello over two TLS records (frag=<n>, n > 0): crypto/tls reassembles the handshake
+    message and completes the handshake, the capture is by definition the first record only (C04), so JA3 / JA4 are
+    computed from a truncated hello: header missing, or a different value"""
+    if not op.startswith(('e2e ', 'e2emulti ')):
+        return False
+    m = re.search(r'(?:^| )frag=(\d+)', op)
+    return bool(m) and int(m.group(1)) > 0
+
+
 MATCHERS = {
+    'clienthello-spans-records': hello_spans_records,
     'symlink-swap-without-delete': swap_keep,
     'sni-list-length-typo': sni_len_typo,
 }
